@@ -105,8 +105,17 @@ def op_restrict(ctx, m, step, sig):
     if mode == 'restrict' and cs_new != want:
         ctx.fail('restrict_cell_order', 'new cell i is not old cell elements[i]', **sig)
     if ix is not None:
-        if new.p.shape[1] != len(ix) or not np.array_equal(new.p, m.p[:, ix]):
-            ctx.fail('restrict_vertex_map', 'p_new[:, i] != p_old[:, ix[i]]', **sig)
+        nvn = new.nvertices
+        if nvn != len(ix) or not np.array_equal(new.p[:, :nvn], m.p[:, ix]):
+            ctx.fail('restrict_vertex_map', 'p_new[:, i] != p_old[:, ix[i]] for the vertices', **sig)
+    if m.p.shape[1] > m.nvertices:
+        # second-order classes: every kept cell keeps ALL its nodes (edge, face and interior nodes carry the geometry)
+        old_nodes = [frozenset(tuple(m.p[:, int(g)].tolist()) for g in m.dofs.element_dofs[:, int(k)]) for k in kept]
+        new_nodes = [frozenset(tuple(new.p[:, int(g)].tolist()) for g in new.dofs.element_dofs[:, k]) for k in range(new.nelements)]
+        if sorted(map(sorted, old_nodes)) != sorted(map(sorted, new_nodes)):
+            ctx.fail('restrict_second_order_geometry', 'the node sets of the kept cells changed', **sig)
+        if new.p.shape[1] != len(np.unique(new.dofs.element_dofs)):
+            ctx.fail('restrict_unused_nodes', f'{new.p.shape[1]} node columns, {len(np.unique(new.dofs.element_dofs))} in use', **sig)
     validity(ctx, new, sig)
     if type(new) is not type(m):
         ctx.fail('class_changed', type(new).__name__, **sig)
@@ -212,7 +221,7 @@ def op_transform(ctx, m, step, sig):
 # ------------------------------------------------------------------------------ single-step sub-checks
 @st.composite
 def case_restrict(draw, tier):
-    desc = draw(gm.mesh(max_cells=24, max_cells_3d=10, order2=True, curved=False))
+    desc = draw(gm.mesh(max_cells=24, max_cells_3d=10, order2=True, curved=True))
     nc = len(desc['t'][0])
     tg = draw(gt.tags(nc, pools=('boundary', 'interior', 'all')))
     step = dict(op='restrict', picks=draw(st.lists(st.integers(0, 10**4), min_size=1, max_size=nc)),
@@ -628,7 +637,7 @@ PROP = Prop(
           'oriented, with_boundaries/with_subdomains; plus a rule-based state machine composing restrict/remove/'
           'transform steps. Operand checksums before/after. Non-trivial: subset cutting a tag / unsorted selection / '
           'tagged mesh / joins sharing vertices / histories of >= 2 operations'),
-    assumptions=['restrict/remove on second-order classes: only the node-array consistency is judged (known finding)',
+    assumptions=[
                  'hexahedral and prism splits are required to be conforming only for cells in the default local order',
                  'joins are compared at the 1e-8 rounding that + applies',
                  'unoriented boundary tags'],
